@@ -118,8 +118,25 @@ def plan(prop, tier, seed, avoid):
         jobs = engine_jobs(prop, tier, seed, avoid)
         spec2 = dict(spec, flags=spec["flags"] + ["-matrix"], quick=dict(plain=570), thorough=dict(plain=22800))
         jobs += engine_jobs(prop, tier, seed + 3, avoid, spec2, None, "matrix:")
+        # third job group: a second world with other component IDs runs every op with the same world-independent argument objects
+        spec3 = dict(spec, flags=spec["flags"] + ["-twin", "shared"], quick=dict(plain=480), thorough=dict(plain=16000))
+        jobs += engine_jobs(prop, tier, seed + 7, avoid, spec3, None, "shared:")
         rule = (f"histories generated by profile '{spec['profile']}' (see C01 for the scheme); job group 2 ('matrix:'): each history is preceded by "
-                f"the scripted method matrix of one typed tuple (case index mod number of tuples); {spec['rule_extra']}")
+                f"the scripted method matrix of one typed tuple (case index mod number of tuples); job group 3 ('shared:'): every op is also "
+                f"executed on a second world with different component IDs, both worlds receiving the same relation argument lists (built once "
+                f"with Rel/RelIdx) for their filters and queries; {spec['rule_extra']}")
+        return dict(jobs=jobs, rule=rule, assumptions=ASSUME_ENGINE)
+    if prop == "C15":
+        # second job group: whole tables created, emptied, shrunk and refilled in bulk (initial capacities 64..256, batches of up to 150)
+        spec = ENGINE[prop]
+        jobs = engine_jobs(prop, tier, seed, avoid)
+        spec2 = dict(spec, profile="bulk", flags=spec["flags"] + ["-minops", "80", "-maxops", "200"], quick=dict(plain=640, checkptr=160),
+                     thorough=dict(plain=24000, checkptr=4000))
+        jobs += engine_jobs(prop, tier, seed + 11, avoid, spec2, None, "bulk:")
+        rule = (f"histories generated by profile 'shrink' (see C01 for the scheme); job group 2 ('bulk:'): profile 'bulk' - two hot component "
+                f"types, initial capacities 64-256, batch creations of up to 150 entities (half of them without initial values), whole-table "
+                f"batch removals and Shrink calls in between, so that tables grow past their initial capacity, run empty, are shrunk, refilled "
+                f"without growing and reset with more than 64 rows; {spec['rule_extra']}")
         return dict(jobs=jobs, rule=rule, assumptions=ASSUME_ENGINE)
     if prop == "C14":
         # second job group: a second *typed* world with different component IDs executes every call with the same
